@@ -306,6 +306,7 @@ fn package_of(url: &str) -> Option<String> {
 }
 
 fn affected_set(
+  world: &World,
   base: &Shape,
   plan: &[(ReqId, Fault)],
 ) -> BTreeSet<String> {
@@ -319,6 +320,35 @@ fn affected_set(
       // and whatever t leads to
       if let Some(x) = base.follow(t) {
         a.insert(x.to_string());
+      }
+      // the injected target may be a world entry the fault-free build never
+      // reached (so the base graph has no redirect for it): follow the
+      // world's own redirects from it, every hop is where the faulted
+      // request now lands
+      let mut cur = t.clone();
+      let mut seen = BTreeSet::new();
+      while seen.insert(cur.clone()) {
+        let cached: BTreeMap<String, Entry> = world.cache.iter().filter_map(|(k, v)| v.clone().map(|e| (k.clone(), e))).collect();
+        let next = [&cached, &world.remote].iter().find_map(|tier| {
+          match tier.get(&cur) {
+            Some(Entry::Redirect(to)) => Some(to.clone()),
+            Some(Entry::Module {
+              final_url: Some(to),
+              ..
+            }) => Some(to.clone()),
+            _ => None,
+          }
+        });
+        match next {
+          Some(n) => {
+            a.insert(n.clone());
+            if let Some(x) = base.follow(&n) {
+              a.insert(x.to_string());
+            }
+            cur = n;
+          }
+          None => break,
+        }
       }
     }
     if is_metadata_url(&id.url) {
@@ -428,6 +458,7 @@ fn independent_nodes(
 /// Oracles 4 and 5 for a faulted run.
 fn check_faulted(
   out: &mut CaseOutcome,
+  world: &World,
   base: &RunData,
   run: &RunData,
   plan: &[(ReqId, Fault)],
@@ -579,7 +610,7 @@ fn check_faulted(
   // item 5: locality
   let plan_owned: Vec<(ReqId, Fault)> =
     fired.iter().map(|x| (*x).clone()).collect();
-  let affected = affected_set(bshape, &plan_owned);
+  let affected = affected_set(world, bshape, &plan_owned);
   let indep = independent_nodes(bshape, &affected);
   let mappings_same =
     base.obs["packages"]["mappings"] == run.obs["packages"]["mappings"];
@@ -794,7 +825,7 @@ pub fn run_case(tape: &mut Tape, tier: Tier, p: &CaseParams) -> CaseOutcome {
     });
     let before = out.violations.len();
     if check_settled(out, &run, &ctx) {
-      check_faulted(out, &base, &run, &plan, &ctx);
+      check_faulted(out, &world, &base, &run, &plan, &ctx);
     }
     if let Some(t) = replay_as {
       for v in &mut out.violations[before..] {
